@@ -11,7 +11,8 @@ ID = 'C15'
 LEVEL = 'model_checking'
 RULE = ('E1 enumeration: base cell (void / material) x 3 geometries x base options (U, FILL, TRCL, IMP); BUT '
         'overrides = every subset of {MAT, RHO, U, FILL, TRCL, *TRCL, IMP} with two values each; LIKE-of-LIKE '
-        'chains of length 2 and 3; base cell before or after the LIKE cell; differential oracle: the generator '
+        'chains of length 2 and 3; base cell before or after the LIKE cell; LIKE copies of a lattice cell with '
+        'their own / the same / missing --lattice ranges; differential oracle: the generator '
         'expands the abbreviation itself (copy + override) and both decks are converted: same non-virtual volume '
         'ids, same membership of every volume at plane-arrangement witnesses + lattice, same compositions and '
         'GEOMCOMP association; non-trivial = at least one override; distinct = deck text')
@@ -182,6 +183,82 @@ def build(chain_len):
     return bld
 
 
+def build_lattice(ch):
+    """the copied cell is a lattice: FILL=u with --lattice ranges for each lattice cell, or a FILL array"""
+    st = Deck('c15 like-but of a lattice cell')
+    mode = ch.choose('fill-mode', ['option', 'array'])
+    r20 = ch.choose('range20', ['-1:1 0:0', '0:1 0:1', '0:2'])
+    geom = '-11 12 -13 14' if len(r20.split()) > 1 else '-11 12'
+    nel = 1
+    for r in r20.split():
+        lo, hi = r.split(':')
+        nel *= int(hi) - int(lo) + 1
+    if mode == 'array':
+        fill20 = '%s %s' % (r20, ' '.join((['3', '6', '2', '3', '6', '6'] * 2)[:nel]))
+    else:
+        fill20 = '3'
+    base = '20 4 -1.5 %s lat=1 u=2 fill=%s imp:n=1' % (geom, fill20)
+    chain = ch.choose('chain', [1, 2])
+    like_cards, expl_cards, opts = [], [], []
+    if mode == 'option':
+        opts += ['--lattice', '20,' + r20.replace(' ', ',')]
+    prev_num, prev = 20, dict(u='2', fill=fill20, trcl=None, imp='1', mat='4 -1.5')
+    for i in range(chain):
+        num = 21 + i
+        cur = dict(prev)
+        but = []
+        cur['u'] = str(4 + 4 * i)
+        but.append('u=%s' % cur['u'])
+        if mode == 'option' and ch.choose('c%d.fill' % num, [False, True]):
+            cur['fill'] = '6'
+            but.append('fill=6')
+        if ch.choose('c%d.trcl' % num, [False, True]):
+            cur['trcl'] = '(0.5 0.25 0)'
+            but.append('trcl=(0.5 0.25 0)')
+        if ch.choose('c%d.mat' % num, [False, True]):
+            cur['mat'] = '1 -2.7'
+            but += ['mat=1', 'rho=-2.7']
+        if ch.choose('c%d.but-order' % num, ['given', 'reversed']) == 'reversed':
+            but = but[::-1]
+        like_cards.append('%d like %d but %s' % (num, prev_num, ' '.join(but)))
+        expl_cards.append('%d %s %s lat=1 u=%s fill=%s%s imp:n=%s'
+                          % (num, cur['mat'], geom, cur['u'], cur['fill'],
+                             ' trcl=%s' % cur['trcl'] if cur['trcl'] else '', cur['imp']))
+        if mode == 'option':
+            # each lattice cell has its own ranges on the command line
+            rk = ch.choose('range%d' % num, ['same', '0:1 0:0', '-1:0 -1:1', 'missing'])
+            if len(r20.split()) == 1 and rk != 'same' and rk != 'missing':
+                rk = rk.split()[0]
+            if rk != 'missing':
+                opts += ['--lattice', '%d,%s' % (num, (r20 if rk == 'same' else rk).replace(' ', ','))]
+        prev_num, prev = num, cur
+    opt_order = ch.choose('option-order', ['given', 'reversed'])
+    if opt_order == 'reversed' and len(opts) > 2:
+        pairs = [opts[k:k + 2] for k in range(0, len(opts), 2)][::-1]
+        opts = [x for pr in pairs for x in pr]
+    fixed = ['1 0 -1 fill=2 imp:n=1', '5 0 -5 fill=4 imp:n=1']
+    outer = '1 5'
+    if chain == 2:
+        fixed.append('7 0 -7 fill=8 imp:n=1')
+        outer += ' 7'
+    fixed += ['9 0 %s -2 imp:n=1' % outer, '99 0 2 imp:n=0',
+              '31 1 -2.7 -3 u=3 imp:n=1', '32 0 3 u=3 imp:n=1',
+              '61 3 -1.0 -4 u=6 imp:n=1', '62 1 -2.7 4 u=6 imp:n=1']
+    base_first = ch.choose('base-first', [True, False])
+    a_cards = [base] + like_cards
+    b_cards = [base] + expl_cards
+    if not base_first:
+        a_cards, b_cards = a_cards[1:] + a_cards[:1], b_cards[1:] + b_cards[:1]
+    st.cells = a_cards + fixed
+    st.explicit_cells = b_cards + fixed
+    st.surfs = ['1 so 4.5', '5 s 12 0 0 4.5', '7 s 0 12 0 4.5', '2 so 40', '3 px 0.2', '4 py -0.3',
+                '11 px 1', '12 px -1', '13 py 1', '14 py -1']
+    st.data = ['m1 13027 1', 'm3 1001 2 8016 1', 'm4 26056 1']
+    st.options = opts
+    st.noverrides = sum(len(c.split(' but ')[1].split()) for c in like_cards)
+    return st
+
+
 def explicit_text(st):
     d = Deck(st.title)
     d.cells, d.surfs, d.data = st.explicit_cells, st.surfs, st.data
@@ -192,7 +269,9 @@ def scenarios(tier):
     q = tier == 'quick'
     return [Scn('like1', build(1), 5 if q else 7, 7, 'one LIKE cell; all subsets within the deviation bound'),
             Scn('like2', build(2), 4 if q else 5, 5, 'LIKE of LIKE'),
-            Scn('like3', build(3), 3 if q else 4, 4, 'chain of three')]
+            Scn('like3', build(3), 3 if q else 4, 4, 'chain of three'),
+            Scn('like-lattice', build_lattice, 4 if q else None, None,
+                'LIKE n BUT copies of a lattice cell (FILL=u with per-cell --lattice ranges, or a FILL array)')]
 
 
 def compare(t4a, t4b, P):
